@@ -169,10 +169,13 @@ class CHECK(core.Check):
         steps, wire = [], []
         if loopback:
             import socket
-            valet = hs.Valet(app=app, host="127.0.0.1", port=0)
+            probe = socket.socket()
+            probe.bind(("127.0.0.1", 0))
+            port = probe.getsockname()[1]
+            probe.close()
+            valet = hs.Valet(app=app, host="127.0.0.1", port=port)
             if not valet.open():
                 raise core.Infra("cannot bind a loopback port")
-            port = valet.servant.ha[1]
             p = hc.Patron(hostname="127.0.0.1", port=port)
             p.open()
             try:
@@ -213,6 +216,16 @@ class CHECK(core.Check):
             if sleep:
                 time.sleep(0.0005)
             steps.append("%d:%d" % (len(p.responses), served["n"]))
+        if sleep and err is None:      # the kernel's TCP delivers when it likes: keep alternating (bounded) until done
+            t0 = time.time()
+            while len(p.responses) < case["n"] and time.time() - t0 < 5.0:
+                try:
+                    p.serviceAll()
+                    valet.serviceAll()
+                except Exception as ex:
+                    err = "err " + type(ex).__name__
+                    break
+                time.sleep(0.0005)
         delivered = []
         errored = 0
         for r in p.responses:
